@@ -631,7 +631,7 @@ func c07Managers(u *unstructured.Unstructured) []string {
 //   both present                                      -> exactly the before-first-apply entry is removed
 //   otherwise                                         -> all managers are cleared
 // A NotFound answer is not an error (the XR is gone); every other class is returned.
-func (p *c07Proc) upgrade(pr *c07Pair, op c07Op, xr client.Object) []Mon {
+func (p *c07Proc) upgrade(pr *c07Pair, op c07Op, xr client.Object) ([]Mon, c07ProbeObs) {
 	var mons []Mon
 	add := func(sig, why string) { mons = append(mons, Mon{Sig: sig, Why: "upgrade: " + why}) }
 	in := c07Managers(&unstructured.Unstructured{Object: xr.(interface{ UnstructuredContent() map[string]any }).UnstructuredContent()})
@@ -694,7 +694,7 @@ func (p *c07Proc) upgrade(pr *c07Pair, op c07Op, xr client.Object) []Mon {
 	if mustJSON(after) != mustJSON(want) {
 		add("C07:upgrade-wrong-managers", fmt.Sprintf("managers %v became %v, expected %v", in, after, want))
 	}
-	return mons
+	return mons, c07ProbeObs{Managers: after, Calls: w.k, Err: c07ErrClass(uerr)}
 }
 
 // upgradeProbe: the upgrader against an object whose managedFields list the given
@@ -724,7 +724,8 @@ func (p *c07Proc) upgradeProbe(pr *c07Pair, op c07Op) []Mon {
 		return []Mon{{Sig: "C07:harness", Why: "cannot read the probe object: " + err.Error()}}
 	}
 	before := c07Proj(p.st.Peek(c07XRGVK.GroupKind(), "", name).Object)
-	mons := p.upgrade(pr, op, xr)
+	mons, po := p.upgrade(pr, op, xr)
+	pr.probes = append(pr.probes, po)
 	if u := p.st.Peek(c07XRGVK.GroupKind(), "", name); u == nil || mustJSON(c07Proj(u.Object)) != mustJSON(before) {
 		mons = append(mons, Mon{Sig: "C07:upgrade-changed-xr", Why: "managed fields upgrade changed the data of the probe object"})
 	}
